@@ -46,6 +46,9 @@ def configs(tier, seed):
         cfgs.append(dict(backend=b, backoff='r10', n=2, messages=1, d=1, dd=3, menu={}, bounce_queue='separate'))
         cfgs.append(dict(backend=b, backoff='r10', n=2, messages=1, d=1, dd=3, menu={}, senders={0: ''}))
         cfgs.append(dict(backend=b, backoff='r10', n=2, messages=0, prestored=1, d=1, dd=3, menu={}))
+        cfgs.append(dict(backend=b, backoff='r10-20', n=1, messages=1, script=[['enqueue', 0], ['flush']], d=2, dd=3, menu=dict(per_recipient=False)))
+        cfgs.append(dict(backend=b, backoff='r0x2', n=2, messages=1, d=0, dd=3, menu=dict(reversed_maps=True, boom=False, reply_ok=False)))
+        cfgs.append(dict(backend=b, backoff='r0x2', n=3, messages=1, d=0, dd=2, menu=dict(reversed_maps=True, boom=False, reply_ok=False)))
         if not q:
             cfgs.append(dict(backend=b, backoff='r10-20', n=3, messages=1, d=1, dd=3, menu={}))
             cfgs.append(dict(backend=b, backoff='r10', n=2, messages=2, d=2, dd=2, menu={}, relay_pool=2, store_pool=2))
@@ -70,6 +73,8 @@ def bounce_obligations(qw):
 
 
 def run_one(cfg, ch):
+    if 'script' in cfg:
+        cfg = dict(cfg, script=[tuple(a) for a in cfg['script']])
     qw = QueueWorld(ch, cfg)
     obs = qw.run()
     viols = list(qw.violations) + bounce_obligations(qw)
@@ -88,6 +93,7 @@ def signature(cfg, qw, kind):
     if mech == 'other' and max(marks.values() or [0]) >= 2:
         mech = 'multi-round-marking'
     return {'kind': kind, 'backend': cfg['backend'], 'exception': ','.join(errs) or 'none',
+            'index_model': 'differs' if qw.index_model_differs else 'matches',
             'partial_result': partial, 'second_round': rounds >= 2, 'mechanism': mech}
 
 
